@@ -25,6 +25,9 @@ CLAIMS = {
     "C04": ("TLA+ spec: representation-level postconditions of the four alignment functions, idempotence; TLC trace validation",
             "Tuples of 1-4 polynomial-likes (polynomials of int/float/complex dtype, numbers, lists, arrays) with broadcastable shapes and arbitrary name/term sets are aligned with each of the four functions; TLC checks outputs in argument order, denotation equal to the (broadcast) input, common shape, names equal to the sorted union, identical rows and keys, and that re-aligning the outputs returns identical representations; the arguments' digests are compared before/after by the global frame clause.",
             "DESIGN.md section 6 C04"),
+    "C05": ("TLA+ step machine of the division loop (spec/Divide.tla) model-checked by TLC for the identity invariant and termination under the candidate rule as implemented and under a leading-term rule; loop observer + iteration cap on the real code; TLC trace validation of identity / constant divisor / exact multiple / degree / spelling agreement",
+            "TLC explores the division loop as a step machine over 5120 dividend/divisor pairs: the identity dividend = q*divisor + r is an invariant of every reachable state, and termination holds under a leading-term rule but fails under the rule the code implements (a lasso is reported and kept as the design-level evidence of the recorded non-termination finding). The enumerated pairs are replayed on the real poly_divmod under a loop observer that logs the running dividend per iteration (a repeat or the cap is a non-termination verdict, not a hang); seeded dividend/divisor arrays (1-3 indeterminates, broadcasting, zero entries, constants, constructed exact multiples) are validated by TLC for the identity (exactly on dyadic data), r = 0 and true quotient for constant divisors, cofactor recovery, degree drop in one indeterminate, and equality of /, %, divmod and the function spellings.",
+            "DESIGN.md section 6 C05"),
     "C06": ("TLA+ spec: formal partial derivative EDeriv on exact polynomials, gradient/hessian layouts; TLC trace validation under every retain_*/sort_* setting",
             "derivative with name / index / indeterminate designations and several variables, gradient and hessian are executed under random settings of the retain and sort options (set in the real process, tracked by the option machine); TLC recomputes the formal partial derivatives of every element and the (D,)+shape / (D,D)+shape layouts.",
             "DESIGN.md section 6 C06"),
@@ -46,9 +49,21 @@ CLAIMS = {
     "C12": ("TLA+ model of numpy's dtype promotion and casts (bound to numpy.result_type / astype on every run), exact-value casts on polynomials; poisoning numpy allocator; TLC trace validation",
             "All 14 dtypes and random ordered pairs: construction from data of a dtype, dtype= requests in polynomial / aspolynomial / polynomial_from_attributes / variable / symbols, astype, +,-,* between dtypes with and without broadcasting, shape functions and indexing; TLC demands numpy's promoted dtype (from the TLA+ promotion rules, themselves checked against numpy.result_type in the same run) and the exact values cast like numpy casts. Every worker process runs with a numpy allocator that fills fresh buffers with 0xA5, and the no-poison clause is evaluated on every result of every driver of every property, including results whose terms all cancel.",
             "DESIGN.md section 6 C12"),
+    "C20": ("TLA+ spec: storage-key codec clauses of WellFormed with unbounded exponents, exact arithmetic on monomials with large exponents, 'error is the only other allowed outcome' above 55000; TLC trace validation",
+            "Single exponents over the whole range (sampled in quick, incl. the 54000-58000 band), pairs (a, b) with a+b <= 600 through multiplication, and random exponent tuples up to 10**5 in 1-3 indeterminates through construction, raw view and back, multiplication, squaring, differentiation, evaluation at 0/1/-1, pickling, copy and text files; TLC checks keys decode to the exponents, products have exactly the summed exponents and the right coefficient, and that below 55000 no operation may raise.",
+            "DESIGN.md section 6 C20"),
     "C17": ("TLA+ frame condition as a global clause on every event (digests of every live register before/after every call, also when it raises); explicit targets (copyto with masks) specified; TLC trace validation of the whole catalogue",
             "Every call of every driver is bracketed by digests (shape, dtype, names, keys, raw bytes) of every live register; TLC requires all of them unchanged except the declared targets of copyto, whose new value it recomputes. A dedicated driver calls ~50 public callables (incl. ones that raise, unsupported numpy functions, division, comparison, pickling, printing, properties) on operands that were aligned beforehand so that internal aliasing is possible.",
             "DESIGN.md section 6 C17"),
+    "C13": ("TLA+ spec: pickle/copy reproduce the representation exactly, savetxt/loadtxt reproduce shape, names and denotation, headerless files load as plain arrays; TLC trace validation",
+            "Pickle protocols 0-5, copy.copy, copy.deepcopy, .copy() (also on alignment outputs that retain all-zero terms) must reproduce shape, dtype, names, exponent rows and coefficients; numpoly.savetxt / numpy.savetxt with fmt, delimiter, header, comments choices to file objects and paths followed by numpoly.loadtxt must restore shape (0-d, size-1, multi-d), names and every element (values exactly representable in the format); a file without numpoly header must load as the plain array.",
+            "DESIGN.md section 6 C13"),
+    "C15": ("TLA+ spec: every postcondition fixes denotation, shape and dtype by expressions in which the option record does not occur (sort options only in order-based actions, display options only in text actions); option calls are events tracked by the option machine; TLC trace validation of the operation catalogue under random settings of all eight boolean options and alternative display signs",
+            "Each trace first sets a random full option setting (through set_options or inside an open global_options block) and then runs the body of one of twelve other drivers (ring arithmetic, shape functions, reductions, evaluation, derivatives, alignment, construction, leading terms, round trips, dtypes, large exponents); TLC judges every event with the same option-independent postconditions and any exception is a rejection, so a setting that changes a value, a shape, a dtype or makes an operation fail is reported. Division runs under default retain options in C05.",
+            "DESIGN.md section 6 C15"),
+    "C16": ("TLA+ spec: the printed text, lexed into signed products of number / name / name^int, is evaluated as ordinary arithmetic and must equal the element; term order must follow the selected display order; sympy round trip; TLC trace validation",
+            "str, repr, array_str and array_repr are executed under random display settings (graded/reverse/inverse, '**' or '^', '*' or a middle dot) on int, float, complex and bool polynomial arrays with coefficients +-1, negative leading terms and names up to q12; the harness only lexes the text, TLC evaluates each element's terms and compares with the exact polynomial and checks that the printed monomials are strictly ordered by the display order; to_sympy -> polynomial must reproduce 0-d int/float polynomials.",
+            "DESIGN.md section 6 C16"),
     "C14": ("TLA+ state machine of the option record and the global_options stack; TLC exhaustive bounded model with action properties; every edge of the dumped graph replayed on the real library; TLC trace validation of random histories",
             "The option machine is model-checked exhaustively (bounded depth and length, history hidden by a VIEW) for restore-on-every-exit, bad-key-changes-nothing, only-given-keys-change; every edge of the reachable quotient graph is replayed into the real set_options/global_options/get_options (exits by exception included) with get_options() compared to the model after every step; random histories over all twelve real keys are validated by the same specification.",
             "DESIGN.md section 6 C14"),
